@@ -30,6 +30,10 @@ SameMultimap(got, exp) ==
 Rejecting(acts) == \E i \in 1..Len(acts) : acts[i].op = "reject"
 RejectOf(acts) == acts[CHOOSE i \in 1..Len(acts) : acts[i].op = "reject"]
 WantsExt(acts) == \E i \in 1..Len(acts) : acts[i].op = "ext"
+\* the two extension slots after the interceptor: ExtA (5 if the request carried it) and ExtB, folded over the actions
+ExtStep(x, a) == CASE a.op = "ext" -> [x EXCEPT !.b = 7] [] a.op = "ext_remove" -> [x EXCEPT !.a = -1]
+                   [] a.op = "ext_replace" -> [x EXCEPT !.a = 9] [] a.op = "fresh" -> [a |-> -1, b |-> -1] [] OTHER -> x
+ExtAfter(stim, acts) == FoldLeft(ExtStep, [a |-> IF stim.req.ext_a THEN 5 ELSE -1, b |-> -1], acts)
 
 Fresh(stim) == [stim |-> stim, sent |-> [none |-> TRUE], acts |-> <<>>, icpt |-> FALSE, inner |-> 0, resp |-> FALSE]
 Keys == {"runs", "accept", "reject", "with_reserved_headers", "with_repeated_headers", "non_post", "http11", "with_binary_action"}
@@ -55,7 +59,7 @@ Inner == /\ Live("inner_req") /\ UNCHANGED stats
                       <<"C12.UriMethodVersionKept", E.uri = s.sent.uri /\ E.method = s.stim.req.method /\ E.version = s.stim.req.version>>,
                       <<"C12.BodyUntouched", E.body = s.stim.req.body>>,
                       <<"C12.HeadersAreInterceptorsResult", SameMultimap(E.list, Expected(s.sent.list, s.acts))>>,
-                      <<"C12.ExtensionsKeptAndAdded", ((E.ext_a # -1) <=> s.stim.req.ext_a) /\ ((E.ext_b # -1) <=> WantsExt(s.acts))>>,
+                      <<"C12.ExtensionsAreInterceptorsResult", E.ext_a = ExtAfter(s.stim, s.acts).a /\ E.ext_b = ExtAfter(s.stim, s.acts).b>>,
                       <<"HarnessOK", s.icpt>> >>,
                    [s EXCEPT !.inner = @ + 1])
 Resp == /\ Live("resp") /\ UNCHANGED stats
